@@ -170,6 +170,21 @@ func init() {
 					}
 				}
 			}
+		case "seqrepeat":
+			// contents whose chunks repeat (the same block linked several times, also with other blocks in between):
+			// cold whole reads, streamed reads and preloads
+			for pat := 0; pat < 64; pat++ {
+				for _, w := range []int{2, 3} {
+					for _, open := range []string{"direct", "preload"} {
+						fc := &FileCase{Fam: "file", ID: fmt.Sprintf("seqrepeat-%d-%d-%s", pat, w, open), Len: 12, Chunker: "size-2", W: w,
+							Content: fmt.Sprintf("pattern:%d", pat), Writer: defaultWriter, Open: open, Mode: "seq"}
+						fc.Script = [][]any{{"asbytes"}, {"open", 1}, {"readall", 1, 3}, {"seek", 1, 0, 2}}
+						if err := runFileCase(fc, tr); err != nil {
+							return err
+						}
+					}
+				}
+			}
 		case "range":
 			for _, sh := range shs {
 				L := sh.length()
